@@ -264,6 +264,9 @@ pub fn c01_process_phase(tier: Tier, seed: u64) -> ParentPhase {
         if crate::props::c01::raises_limits(bytes) {
             continue;
         }
+        if pp.failures.len() >= 6 {
+            break;
+        }
         let h = hash_bytes(bytes);
         // --- CLI: file -> stdout, and stdin -> file
         let inp = dir.join(format!("in{k}.xml"));
